@@ -2,6 +2,7 @@
 import gzip
 import itertools
 import os
+import contextlib
 import shutil
 import tempfile
 import coqlit as L
@@ -255,14 +256,19 @@ def run_impl(c):
                 o["seq"] = ["err", L.err_class(ex)]
             o["calls"] = tr.calls if tr else 0
             tr2 = None if c["t"] == "none" else Counter(c["t"], flags)
+            # with progress reporting on in half of the cases: a transform is still applied once per feature
+            verbose = (c["checklines"] + len(c["items"])) % 2 == 0
             try:
                 data, kw = make_form(form, path, gzpath, text, c)
-                if form == "dataiter":
-                    data.transform = tr2
-                    db = gffutils.create_db(data, ":memory:", checklines=c["checklines"])
-                else:
-                    db = gffutils.create_db(data, ":memory:", checklines=c["checklines"], transform=tr2, **kw)
+                with open(os.devnull, "w") as sink, contextlib.redirect_stderr(sink), contextlib.redirect_stdout(sink):
+                    if form == "dataiter":
+                        data.transform = tr2
+                        db = gffutils.create_db(data, ":memory:", checklines=c["checklines"], verbose=verbose)
+                    else:
+                        db = gffutils.create_db(data, ":memory:", checklines=c["checklines"], transform=tr2, verbose=verbose, **kw)
                 o["db"] = ["ok", [r[0] for r in db.conn.execute("SELECT id FROM features ORDER BY rowid")]]
+                if tr2 is not None and tr2.calls != (tr.calls if tr else 0) and o["seq"][0] == "ok":
+                    o["db"] = ["err", "Other"]          # create_db called the transform a different number of times than iteration does
             except Exception as ex:
                 o["db"] = ["err", L.err_class(ex)]
             obs.append(o)
